@@ -113,3 +113,36 @@ Theorem c06_link_inv : forall (cfg : config) (st : rstate), reachable cfg st ->
   (forall id id' o o', slab_get (r_obufs st) id = Some o -> slab_get (r_obufs st) id' = Some o' ->
                        o_link o = o_link o' -> id = id').
 Proof. exact reachable_LinkInv. Qed.
+
+(** ---- nothing owed at quiescence (via the wake-up discipline, Router/Wake*.v) -----------------
+    [pending st id] = the committed, not yet flushed acks of connection [id] (Router/AcksRun.v);
+    a non-empty [committed] keeps the connection runnable or owed a wake-up
+    ([c06_acks_keep_runnable]), so in a quiescent state ([quiescent], Router/WakeCor.v: no live
+    Ready connection queued, notifications empty, every inflight buffer empty, no Unschedule
+    pending or owed a Ready — [owed_run] is the ghost computed from the op history) every
+    registered ack has been flushed: with [c06_flush_in_order], the acks drained from the link
+    ARE the registered ones, in order, each once.  Any op sequence, any oracles. *)
+From Rumqtt Require Import Router.Inv Router.NoPanic Router.Wake Router.WakeThm Router.WakeCor.
+From Rumqtt Require Import Router.Model Router.RunDefs.
+
+Theorem c06_acks_keep_runnable : forall (cfg : config) (st0 : rstate) (ops : list (list oracle * rop)) (st : rstate),
+  cfg_ok cfg -> init cfg = Ok st0 -> ops_wf ops -> run st0 ops = Ok st ->
+  forall (id : N) (t : tracker) (a : acklog) (o : outgoing),
+    slab_get (r_trackers st) id = Some t -> slab_get (r_acks st) id = Some a -> slab_get (r_obufs st) id = Some o ->
+    (tr_reqs t <> [] \/ a_committed a <> [] ->
+       (tr_status t = Ready /\ In id (r_ready st)) \/
+       (tr_status t = Paused InflightFull /\ o_inflight o <> []) \/
+       (tr_status t = Paused Busy /\
+        (In NUnschedule (out_of st (o_link o)) \/ owes_ready st0 ops (o_link o) = true))) /\
+    (tr_status t = Paused Caughtup -> tr_reqs t = [] /\ a_committed a = []) /\
+    (tr_status t = Ready -> In id (r_ready st)) /\
+    (tr_status t = Paused InflightFull -> o_inflight o <> []) /\
+    (tr_status t = Paused Busy ->
+       In NUnschedule (out_of st (o_link o)) \/ owes_ready st0 ops (o_link o) = true).
+Proof. exact no_lost_wakeup. Qed.
+
+Theorem c06_nothing_owed_quiescent : forall (cfg : config) (st0 : rstate) (ops : list (list oracle * rop)) (st : rstate),
+  cfg_ok cfg -> init cfg = Ok st0 -> ops_wf ops -> run st0 ops = Ok st ->
+  quiescent st (owed_run st0 [] ops) ->
+  forall id : N, pending st id = [].
+Proof. exact nothing_owed_quiescent. Qed.
